@@ -12,7 +12,7 @@ FLOAT_TOL = 1e-8
 STATS = G.STATS
 KIND = {'curve': 'c', 'surface': 's', 'volume': 'v'}
 PARTIAL = [
-    "A5.1 as coded is MODELLED literally for BOTH branches of helpers.knot_insertion and PROVED equal to the index-form models: point branch (curves and the iso-curves of surfaces: knotInsertionA51, Model/InsertA51.lean, streams ins-a51 / ins-pt) and list-of-rows branch (what operations.insert_knot feeds for volumes: knotInsertionRowsA51, Model/InsertRowsA51.lean - same allocation / copy loops / temp initialisation / edge writes / final loop, and in the sweep the sequential loop `for idx in range(len(temp[i])): temp[i][idx][:] = ...` over the points of a row; streams ins-rows-a51 against the real helper called with rows, incl. s > 0, num > 1, num = 0, first / last span, unclamped knot vectors, s / span / u not belonging together; the streams also check that the caller's rows are left unchanged). knot_insertion_as_coded_eq_model / knot_insertion_rows_as_coded_eq_model: for every knot function, polygon / list of rows, parameter, num >= 0, s and span k with p <= k and num + s <= p the loops return, slot by slot (and point by point), what knotInsertion / knotInsertionRows return (one generic proof over the element type and the blend: Lemmas/A51Loops*.lean; nothing assumed about the knots, alpha denominators may vanish); knot_insertion_rows_as_coded_isocurve: every iso-curve of the loops on rows is the loops on that iso-curve. OBJECT LEVEL: insertKnotDirCoded / insertKnotCoded (Model/KnotOpsCoded.lean: knotInsertionA51 on every iso-curve of a curve / surface, ONE call of knotInsertionRowsA51 on the gathered rows of a volume; stream ins-coded against operations.insert_knot) are PROVED equal to insertKnotDir / insertKnot (insertKnotDir_as_coded_eq_model: degree + 1 <= size, and num + s <= degree when check=False; insertKnot_as_coded_eq_model_curve / _surface / _volume: well-formed object, every requested direction admissible or rejected by the multiplicity check), so shape preservation is a theorem about the loops as coded for curves (insert_as_coded_preserves_curve_point, insert_as_coded_preserves_curve), surfaces (insert_as_coded_preserves_surface) and volumes (insert_as_coded_preserves_volume). NOT covered: calls outside the guard (k < degree or num + s > degree: reachable only through explicit keyword arguments or check=False), where Python's negative indices wrap around and the transcriptions do not follow; rows in which the same point OBJECT occurs twice (deepcopy keeps the aliasing inside a row and the in-place blend would hit the point twice; operations.insert_knot never builds such rows: the points of a geometry are distinct lists) - the transcription is value-semantic (argued in Model/InsertRowsA51.lean: no object shared with the caller or between two slots of temp is ever mutated)",
+    "A5.1 as coded is MODELLED literally for BOTH branches of helpers.knot_insertion and PROVED equal to the index-form models: point branch (curves and the iso-curves of surfaces: knotInsertionA51, Model/InsertA51.lean, streams ins-a51 / ins-pt) and list-of-rows branch (what operations.insert_knot feeds for volumes: knotInsertionRowsA51, Model/InsertRowsA51.lean - same allocation / copy loops / temp initialisation / edge writes / final loop, and in the sweep the sequential loop `for idx in range(len(temp[i])): temp[i][idx][:] = ...` over the points of a row; streams ins-rows-a51 against the real helper called with rows, incl. s > 0, num > 1, num = 0, first / last span, unclamped knot vectors, s / span / u not belonging together; the streams also check that the caller's rows are left unchanged). knot_insertion_as_coded_eq_model / knot_insertion_rows_as_coded_eq_model: for every knot function, polygon / list of rows, parameter, num >= 0, s and span k with p <= k and num + s <= p the loops return, slot by slot (and point by point), what knotInsertion / knotInsertionRows return (one generic proof over the element type and the blend: Lemmas/A51Loops*.lean; the equality of the model functions needs nothing about the knots, but the three POINT-branch as-coded statements knot_insertion_as_coded_eq_model / insert_as_coded_surface_nets_eq / insert_as_coded_net_length now CARRY the guard under which the helper does not raise ZeroDivisionError - sorted knots and a non-empty span argument U_k < U_{k+1}, insert_as_coded_denominators_positive: every alpha denominator is positive then - plus point dimension >= 1 in insert_as_coded_net_length; where a denominator the loops compute IS zero the model divides x/0 = 0, the helper raises and the driver ops insa51 / inspt answer ERR, testing exactly those denominators (Drv.a51DivByZero: an empty span argument with no vanishing denominator is computed by both sides); free calls with an EMPTY span argument are generated, witness insert_as_coded_empty_span_witness; the rows-branch statement knot_insertion_rows_as_coded_eq_model does not carry that guard yet); knot_insertion_rows_as_coded_isocurve: every iso-curve of the loops on rows is the loops on that iso-curve. OBJECT LEVEL: insertKnotDirCoded / insertKnotCoded (Model/KnotOpsCoded.lean: knotInsertionA51 on every iso-curve of a curve / surface, ONE call of knotInsertionRowsA51 on the gathered rows of a volume; stream ins-coded against operations.insert_knot) are PROVED equal to insertKnotDir / insertKnot (insertKnotDir_as_coded_eq_model: degree + 1 <= size, and num + s <= degree when check=False; insertKnot_as_coded_eq_model_curve / _surface / _volume: well-formed object, every requested direction admissible or rejected by the multiplicity check), so shape preservation is a theorem about the loops as coded for curves (insert_as_coded_preserves_curve_point, insert_as_coded_preserves_curve), surfaces (insert_as_coded_preserves_surface) and volumes (insert_as_coded_preserves_volume). NOT covered: calls outside the guard (k < degree or num + s > degree: reachable only through explicit keyword arguments or check=False), where Python's negative indices wrap around and the transcriptions do not follow; rows in which the same point OBJECT occurs twice (deepcopy keeps the aliasing inside a row and the in-place blend would hit the point twice; operations.insert_knot never builds such rows: the points of a geometry are distinct lists) - the transcription is value-semantic (argued in Model/InsertRowsA51.lean: no object shared with the caller or between two slots of temp is ever mutated)",
     "object level (Props/C04.lean, insertKnot_preserves_surface / _volume, insert_call_sequence_preserves_surface / _volume): one insert_knot call with any subset of the directions of a surface or a volume, and any sequence of such calls, completes and preserves well-formedness, the domain and every evaluated point at every parameter of the domain - under the explicit hypothesis that every requested direction is admissible (DirReqOk: parameter in the half-open domain [U_p, U_n), the multiplicity s computed by find_multiplicity is a run ending at the span, r + s <= p; derivable from tolerance separation by insert_request_admissible); a direction rejected by the multiplicity check leaves the earlier directions applied and the points unchanged (insertKnot_partial_application_*). NOT covered by a theorem: a parameter outside the half-open domain of its direction (e.g. u = U_n), check=False with r + s > p, and curve objects at Shape level (curves are proved at helper level: insert_sequence_preserves - points unchanged on the closed domain AND the final state CurveWF with both domain ends unchanged; insert_net_length: r more points, each of the same dimension)",
     "rational objects: the theorems are about the homogeneous net (coordinatewise, weight coordinate included); the projection is C01/C09's",
     "list-of-rows branch of helpers.knot_insertion (volumes), index form: knotInsertionRows (gather / scatter volRows / volUnrows / mapVolRows with the index expressions of operations.insert_knot; streams ins-rows / ins-vol-rows against the real helper called with rows and against operations.insert_knot) is PROVED equal to the per-iso-curve model (knotInsertionRows_isocurve: no hypothesis; knotInsertionRows_is_transposed_knotInsertion; mapVolRows_insert_eq_mapVol; insertKnotVolRows_is_insertKnotDir) and to the in-place loops as coded (knot_insertion_rows_as_coded_eq_model), so the volume theorems are about what the rows branch computes. Not covered: ragged rows (rows of different lengths: IndexError in the code) beyond the iso-curve statement",
@@ -270,12 +270,21 @@ def gen(rng, tier):
             r = rng.choice([0] + list(range(1, p - s + 1)) * 3) if p > s else 0
             genuine = True
         else:
-            k = rng.choice(spans + [spans[0], spans[-1]])
+            empty = [k_ for k_ in range(p, n_) if kv[k_] == kv[k_ + 1]]
+            if empty and rng.random() < .45:
+                # malformed: an EMPTY span argument (U_k = U_{k+1}); an alpha denominator U[i+k+1] - U[k-p+j+i] may vanish:
+                # ZeroDivisionError in the helper = ERR of the driver (outside the guard hspan of the theorems)
+                k = rng.choice(empty)
+            else:
+                k = rng.choice(spans + [spans[0], spans[-1]])
             r = rng.randint(0, p)
             s = rng.randint(0, p - r)
             u = rng.choice([kv[k], kv[k] + (kv[k + 1] - kv[k]) * F(rng.randint(1, 99), 100), kv[0] - 1, kv[-1] + F(1, 3),
                             kv[p] + (kv[n_] - kv[p]) * F(rng.randint(0, 100), 100)])
             genuine = False
+            if kv[k] == kv[k + 1]:
+                zero = any(kv[i + k + 1] == kv[k - p + j + i] for j in range(1, r + 1) for i in range(0, p - j - s + 1))
+                G.count('a51_empty_span', 'zero-denominator' if zero else 'no-division-by-zero')
         G.count('a51', (p, s, r, 'first' if k == p else ('last' if k == n_ - 1 else 'mid'), 'genuine' if genuine else 'free'))
         G.count('a51_clamped', kv[0] == kv[p])
         tail = "%d %s %s %s %d %d %d" % (p, show_list(kv), show_pts(d['P']), fr(u), r, s, k)
@@ -303,9 +312,13 @@ def _oracle_a51(c):
     """genuine calls (s, span those of u): r more points, the curve is unchanged (independent Cox-de Boor evaluation)"""
     x = c.data
     d = x['shape']
+    kv, p, k = d['kv'], d['p'], x['k']
+    zero = any(kv[i + k + 1] == kv[k - p + j + i] for j in range(1, x['r'] + 1) for i in range(0, p - j - x['s'] + 1))
     try:
         Q = _a51_call(c)
     except Exception as e:
+        if zero and isinstance(e, ZeroDivisionError):
+            return None          # empty span argument with a vanishing alpha denominator: outside the guard
         return "knot_insertion raised %s: %s" % (type(e).__name__, e)
     if len(Q) != d['n'] + x['r']:
         return "knot_insertion returned %d points, expected %d" % (len(Q), d['n'] + x['r'])
